@@ -183,7 +183,9 @@ def run(ck, m):
               "after exhaustion or an error the data would stay un-finalized and further control operations would not raise", stmt=f"__next__: except {norm(h.type) if h.type else ''} closes")
     dl = m.find(IT, "RenderIterator.__del__")
     if dl is not None:
-        ck.ob("R3", dl, any(isinstance(c, ast.Call) and norm(c) == "self.close()" for c in body_walk(dl)), "__del__ must call close()", stmt="RenderIterator.__del__ closes")
+        dcl = [c for c in body_walk(dl) if isinstance(c, ast.Call) and norm(c) == "self.close()"]
+        ck.ob("R3", dl, len(dcl) >= 1 and not conds(dcl[0]), "__del__ must call close() - unconditionally: close() itself knows whether anything is left to release (a generator that died of a KeyboardInterrupt "
+              f"has finished, yet its data is still un-finalized); conditions found: {sorted(conds(dcl[0])) if dcl else 'no call'}", stmt="RenderIterator.__del__ closes")
     else:
         wf = [c for c in m.walk(IT) if isinstance(c, ast.Call) and (call_name(c) or "").endswith("finalize") and "weakref" in (call_name(c) or "") and len(c.args) >= 2]
         strong = [c for c in wf if any(isinstance(x, ast.Name) and x.id in ("self", "new") for a_ in c.args[1:] for x in ast.walk(a_))]
